@@ -62,7 +62,7 @@ def run(rep, tier, seed):
         for weakly in (False, True):
             if system == "c-inference" and weakly:
                 continue
-            bounds = [(2, 2)] if quick else [(2, 2), (3, 2), (2, 3)]
+            bounds = [(2, 2)] if quick else ([(2, 2), (3, 2), (2, 3)] if system in ("p-entailment", "system-z") else [(2, 2), (3, 2)])
             if system == "c-inference" and not quick:
                 bounds = [(2, 2), (3, 2)]
             for N, M in bounds:
@@ -96,8 +96,8 @@ def run(rep, tier, seed):
     # deeper slice for the operators with a tie-breaking recursion: three conditionals
     # (two layers with a two-conditional layer become possible) for And / cautious monotony
     for system, pm, lvl in [("system-w", "rc2", "L2"), ("lex_inf", "rc2", "L2")] + ([] if quick else [("system-w", "z3", "L1"), ("lex_inf", "z3", "L1")]):
-        for N, M in ([(2, 3)] if quick else [(2, 3), (3, 3)]):
-            for name, nl, qf, prop in [x for x in postulates(M, None) if x[0] in (("and", "cautious-monotony") if quick else ("and", "or", "cautious-monotony", "cut"))]:
+        for N, M in [(2, 3)]:
+            for name, nl, qf, prop in [x for x in postulates(M, None) if x[0] in (("and", "or", "cautious-monotony") if quick else ("and", "or", "cautious-monotony", "cut", "right-weakening"))]:
                 h = multi.MultiHarness("%s: %s/%s strict N=%d M=%d" % (name, system, pm, N, M), [dict(system=system, pm=pm, weakly=False, level=lvl)], N, M, nl, qf, prop)
                 drive.run_op(rep, h)
     # vacuity: rational monotony must FAIL for p-entailment (it is not rational)
